@@ -85,6 +85,36 @@ pub open spec fn simple_primary(r: (CompiledProg, AstNode<Primary>), t: TokenWit
     r.1 == mk_ast(p, t.loc) && node_view(r.0.inner) == SNode::Const(c) && r.0.details@ == Set::<Seq<char>>::empty()
 }
 
+
+// ---- list literals ---------------------------------------------------------------------------------------------------------------
+pub open spec fn lift(s: Seq<ByteCode>) -> Seq<PreResolvedCodePoint> { s.map_values(|b: ByteCode| PreResolvedCodePoint::Bytecode(b)) }
+pub open spec fn items_details(items: Seq<P<Expr>>, n: int) -> Set<Seq<char>> decreases n { if n <= 0 { Set::empty() } else { items_details(items, n - 1) + items[n - 1].details } }
+pub open spec fn items_all_const(items: Seq<P<Expr>>, n: int) -> bool decreases n { if n <= 0 { true } else { items_all_const(items, n - 1) && items[n - 1].node is Const } }
+pub open spec fn items_code(items: Seq<P<Expr>>, n: int) -> Seq<PreResolvedCodePoint> decreases n { if n <= 0 { Seq::empty() } else { items_code(items, n - 1) + code_of(items[n - 1].node) } }
+pub open spec fn items_asts(items: Seq<P<Expr>>) -> Seq<AstNode<Expr>> { items.map_values(|p: P<Expr>| p.ast) }
+pub mod axl { use super::*; use vstd::prelude::*;
+/// the list value holding these elements (From<Vec<CelValue>> for CelValue: ASSUMED element-wise, in order)
+pub uninterp spec fn list_val(v: Seq<CelValue>) -> CelValue;
+pub uninterp spec fn vec_of_exprs(s: Seq<AstNode<Expr>>) -> Vec<AstNode<Expr>>;
+pub uninterp spec fn list_from<T>(v: Vec<T>) -> CelValue;
+pub broadcast axiom fn axiom_list_from_values(v: Vec<CelValue>) ensures #[trigger] list_from::<CelValue>(v) == list_val(v@);
+/// ASSUMED: a Vec is determined by its elements
+pub broadcast axiom fn axiom_vec_of_exprs(v: Vec<AstNode<Expr>>) ensures #[trigger] vec_of_exprs(v@) == v;
+}
+pub use axl::{list_val, vec_of_exprs};
+impl<T: Into<CelValue>> vstd::std_specs::convert::FromSpecImpl<Vec<T>> for CelValue { open spec fn obeys_from_spec() -> bool { true } open spec fn from_spec(v: Vec<T>) -> Self { axl::list_from(v) } }
+/// `v.into_iter().unzip()`
+#[verifier::external_body] pub fn s_unzip<X, Y>(v: Vec<(X, Y)>) -> (r: (Vec<X>, Vec<Y>))
+    ensures r.0@.len() == v@.len(), r.1@.len() == v@.len(), forall|i: int| 0 <= i < v@.len() ==> #[trigger] r.0@[i] == v@[i].0, forall|i: int| 0 <= i < v@.len() ==> #[trigger] r.1@[i] == v@[i].1 { unimplemented!() }
+/// `*val == ending` (derived PartialEq on Token) for the two closing tokens lists end with
+#[verifier::external_body] pub fn token_is(a: &Token, b: &Token) -> (r: bool)
+    ensures *b is RParen ==> r == (*a is RParen), *b is RBracket ==> r == (*a is RBracket) { unimplemented!() }
+pub proof fn lemma_children_items(ch: Seq<CompiledProg>, items: Seq<P<Expr>>, k: int)
+    requires 0 <= k <= ch.len(), ch.len() == items.len(), forall|i: int| 0 <= i < ch.len() ==> (#[trigger] ch[i]).details@ == items[i].details && node_view(ch[i].inner) == items[i].node
+    ensures all_details(ch, k) == items_details(items, k), all_consts(ch, k) == items_all_const(items, k), flat_code(ch, k) == items_code(items, k)
+    decreases k
+{ if k > 0 { lemma_children_items(ch, items, k - 1); } }
+
 impl SyntaxError {
     #[verifier::external_body] pub fn from_location(loc: SourceLocation) -> SyntaxError { unimplemented!() }
     #[verifier::external_body] pub fn with_message(self, msg: String) -> SyntaxError { unimplemented!() }
@@ -171,14 +201,55 @@ def primary_contract(stub=False):
             && a_node(r->Ok_0.1) is Literal && a_node(r->Ok_0.1)->Literal_0 is ByteStringLit && a_node(r->Ok_0.1)->Literal_0->ByteStringLit_0@ == {T0}.token->ByteStringLit_0@
             && node_view(r->Ok_0.0.inner) is Const && node_view(r->Ok_0.0.inner)->Const_0 is Bytes && node_view(r->Ok_0.0.inner)->Const_0->Bytes_0@ == {T0}.token->ByteStringLit_0@""", ('C13', 'C18')),
     ]
+    ens.append(('list_literal_holds_its_elements_in_order', f"""r is Ok && {T0}.token is LBracket ==> ({{
+            let toks = old(self).tokenizer.toks();
+            let l = sp_expr_list(toks, old(self).tokenizer.pos() + 1, old(self).next_label, Token::RBracket);
+            &&& l is Some && l->Some_0.end < toks.len() && toks[l->Some_0.end as int].token is RBracket
+            &&& final(self).tokenizer.pos() == l->Some_0.end + 1 && final(self).next_label == l->Some_0.lbl
+            &&& ({{ let items = l->Some_0.items; let n = items.len() as int; let span = hull({T0}.loc, toks[l->Some_0.end as int].loc);
+                &&& r->Ok_0.1 == mk_ast(Primary::ListConstruction(mk_ast(ExprList {{ exprs: vec_of_exprs(items_asts(items)) }}, span)), span)
+                &&& r->Ok_0.0.details@ == items_details(items, n)
+                &&& (if items_all_const(items, n) {{
+                        exists|vals: Seq<CelValue>| vals.len() == n && (forall|i: int| 0 <= i < n ==> items[i].node == SNode::Const(#[trigger] vals[i])) && node_view(r->Ok_0.0.inner) == SNode::Const(list_val(vals))
+                    }} else {{
+                        node_view(r->Ok_0.0.inner) is Code && node_view(r->Ok_0.0.inner)->Code_0 =~= items_code(items, n) + lift(seq![ByteCode::MkList(n as u32)])
+                    }})
+            }})
+        }})""", ('C06', 'C09', 'C17', 'C18', 'C02', 'C10')))
     if stub:
         return A(stub=True, ret='r', requires=[CURSOR], ensures=ens)
     drop = lambda what: ('{ unverified_primary_arm() }', f'{what}: iterator unzip / step_by / a nested compiler, outside what Verus accepts; NOT VERIFIED')
     return A(ret='r', attrs=['#[verifier::exec_allows_no_decreases_clause]'], requires=[CURSOR], ensures=ens,
-             arm_replace={'Some(TokenWithLoc { token: Token::LBracket, loc, })': drop('list literal'),
-                          'Some(TokenWithLoc { token: Token::LBrace, loc, })': drop('map literal'),
+             arm_replace={'Some(TokenWithLoc { token: Token::LBrace, loc, })': drop('map literal'),
                           'Some(TokenWithLoc { token: Token::FStringLit(segments), loc, })': drop('f-string lowering')},
-             props=PRIMARY_PROPS + ('C01',))
+             closures={0: dict(types=['Vec<CelValue>'], ret='res: CelValue', ensures=[('the_list_of_the_values', 'res == list_val(c@)', ('C06', 'C09'))])},
+             rewrites=[('expr_node_list.into_iter().unzip()', 's_unzip(expr_node_list)', 'R2m: Vec::into_iter().unzip() -> trampoline (assumed: the two component vectors, in order)')],
+             after={('stmt', 'let expr_node_list =', 0): 'let ghost l0 = sp_expr_list(self.tokenizer.toks(), old(self).tokenizer.pos() + 1, old(self).next_label, Token::RBracket)->Some_0;',
+                    ('stmt', 'let (expr_list, expr_list_ast): (Vec<_>, Vec<_>) =', 0): '''proof {
+    lemma_children_items(expr_list@, l0.items, l0.items.len() as int);
+    assert(expr_list_ast@ =~= items_asts(l0.items));
+}'''},
+             props=PRIMARY_PROPS + ('C06', 'C01'))
+
+
+def expr_list_contract():
+    STATE = 'EL { items: items0, end: self.tokenizer.pos(), lbl: self.next_label }'
+    EL0 = 'EL { items: Seq::empty(), end: old(self).tokenizer.pos(), lbl: old(self).next_label }'
+    REL = '(forall|i: int| 0 <= i < exprs@.len() ==> (#[trigger] exprs@[i]).1 == items0[i].ast && exprs@[i].0.details@ == items0[i].details && node_view(exprs@[i].0.inner) == items0[i].node)'
+    return A(
+        ret='r', attrs=['#[verifier::exec_allows_no_decreases_clause]'], requires=[CURSOR, S.ENDING_REQ], ensures=[UNTOUCHED, S.EXPR_LIST_CLAUSE],
+        body_begin='let ghost mut items0: Seq<P<Expr>> = Seq::empty();',
+        loops={0: dict(
+            invariant=[('token_stream_untouched', 'self.tokenizer.toks() == old(self).tokenizer.toks() && self.tokenizer.pos() <= self.tokenizer.toks().len() && self.bindings == old(self).bindings && self.tokenizer.pos() >= old(self).tokenizer.pos() && (ending is RParen || ending is RBracket)'),
+                       ('elements_so_far', f'exprs@.len() == items0.len() && {REL}', ('C02', 'C17'))],
+            invariant_except_break=[('prefix_parsed', f'sp_el_loop(self.tokenizer.toks(), {EL0}, ending) == sp_el_loop(self.tokenizer.toks(), {STATE}, ending)', ('C02',))],
+            ensures=[('list_complete', f'sp_el_loop(self.tokenizer.toks(), {EL0}, ending) == Some({STATE})', ('C02',))],
+            pre=f'let ghost acc0 = {STATE};')},
+        after={('stmt', 'let compiled =', 0): 'let ghost e1 = P { ast: compiled.1, end: self.tokenizer.pos(), lbl: self.next_label, details: compiled.0.details@, node: node_view(compiled.0.inner) };',
+               ('stmt', 'exprs.push(compiled)', 0): 'proof { items0 = items0.push(e1); assert(sp_expr(self.tokenizer.toks(), acc0.end, acc0.lbl) == Some(e1)); }'},
+        rewrites=[('let mut exprs = Vec::new();', 'let mut exprs: Vec<(CompiledProg, AstNode<Expr>)> = Vec::new();', 'R9: inferred type of a local made explicit (the invariant mentions it before its first use)'),
+                  ('*val == ending', 'token_is(val, &ending)', 'R2: derived PartialEq on Token -> token_is (assumed: equality with a closing bracket token is a variant test)')],
+        props=('C02', 'C17', 'C18', 'C01'))
 
 
 def build():
@@ -193,9 +264,9 @@ def build():
     U.raw(C.DERIVED, 'assumed derived impls')
     U.raw(C.VALUE_SPECS + C.TRUTHY_SPEC, 'shared vocabulary')
     U.raw(C.TRAIT_FULL, 'CelValueDyn restated')
-    U.raw('impl View for CelByteCode { type V = Seq<ByteCode>; closed spec fn view(&self) -> Seq<ByteCode> { self.inner@ } }\n' + S.core_with_full_tokenizer() + S.ITER + SPEC + S.BINDCTX_AMBIENT, 'grammar specs')
+    U.raw('impl View for CelByteCode { type V = Seq<ByteCode>; closed spec fn view(&self) -> Seq<ByteCode> { self.inner@ } }\n' + S.core_with_full_tokenizer() + S.ITER + S.FCWB_SPEC + SPEC.replace('// ---- list literals', S.EXPR_LIST_SPEC + '// ---- list literals') + S.BINDCTX_AMBIENT, 'grammar specs')
     U.raw(C.STD_SPECS, 'assumed std specs')
-    U.raw(S.axioms(), 'axioms')
+    U.raw(S.axioms().replace('ax::axiom_vec_bytecode_len, ', 'ax::axiom_vec_bytecode_len, axl::axiom_vec_of_exprs, axl::axiom_list_from_values, '), 'axioms')
     U.extract(C.CE, 'impl From<SyntaxError> for CelError', fns={'from': A(ret='r', ensures=[('def', 'r == CelError::Syntax(value)')], props=('C01',))})
     U.extract('rscel/src/compiler/tokenizer.rs', 'impl AsToken for Option<&TokenWithLoc>', fns={
         'as_token': A(ret='r', ensures=[('def', '(match *self { Some(s) => r == Some(&s.token), None => r is None })')], props=('C02', 'C01'))})
@@ -233,7 +304,10 @@ def build():
     U.extract(C.CV, 'impl From<String> for CelValue', fns={'from': C.simple_ctor('r == CelValue::String(val)')})
     U.extract(C.CV, 'impl From<CelBytes> for CelValue', fns={'from': C.simple_ctor('r == CelValue::Bytes(value)')})
     U.extract('rscel/src/types/cel_bytes.rs', 'impl Into<Vec<u8>> for CelBytes', fns={'into': A(props=('C13', 'C01'))})
-    U.extract(S.CPR, 'impl CompiledProg', fns=S.stubbed(S.compprog_contracts()), others='stub', skip=('into_program',))
+    cp = S.stubbed(S.compprog_contracts())
+    cp['from_children_w_bytecode'] = S.stubbed({'x': S.FCWB})['x']
+    U.extract(S.CPR, 'impl CompiledProg', fns=cp, others='stub', skip=('into_program',))
+    U.extract(C.CV, 'impl<T: Into<CelValue>> From<Vec<T>> for CelValue', fns={'from': A(stub=True)})
     U.extract(S.CPR, 'impl NodeValue', fns=S.stubbed(S.NODEVALUE))
     U.extract(S.CP, "impl<'l> CelCompiler<'l>", fns={
         'parse_member': A(stub=True, ret='r', requires=[CURSOR], ensures=[UNTOUCHED, result_clause(f'sp_member({HERE})', ())]),
@@ -242,6 +316,7 @@ def build():
         'parse_neg_list': run_contract(False),
         'parse_unary': unary_contract(),
         'parse_primary': primary_contract(),
+        'parse_expression_list': expr_list_contract(),
     })
     U.raw(C.FOOTER, 'footer')
     return U
